@@ -4,5 +4,6 @@ set -eu
 cd "$(dirname "$0")"
 export GOPROXY=off GOSUMDB=off GOTOOLCHAIN=local GOWORK=off CGO_ENABLED=0 GOFLAGS=-mod=vendor
 mkdir -p bin evidence reports
-(cd checker && go build -o ../bin/tcellvet .)
+# built beside the target and renamed over it, so that a check running at the same time keeps its binary
+(cd checker && go build -o ../bin/tcellvet.new . && mv -f ../bin/tcellvet.new ../bin/tcellvet)
 echo "built bin/tcellvet"
